@@ -205,8 +205,19 @@ impl Lib {
         match res {
             Err(p) => json!({"k": "panic", "msg": p}),
             Ok(Err(e)) => e.parse::<Value>().unwrap_or(json!({"k": "error", "msg": e})),
-            Ok(Ok(v)) => json!({"k": "value", "v": vw(&v, 0)}),
+            // "tag": the implementation's own type of the result (Variable::as_type), judged next to the contents
+            Ok(Ok(v)) => json!({"k": "value", "v": vw(&v, 0), "tag": catch(|| type_to_wire(&v.as_type())).unwrap_or(json!({"k": "panic"}))}),
         }
+    }
+
+    /// Heap churn: a run that makes, type-tests and drops a few hundred short-lived structs of assorted shapes, so that the
+    /// values a later call returns are allocated where values of OTHER types lived (anything an implementation remembers
+    /// about a value by its address must not outlive the value).
+    fn churn(&self) {
+        let text = "i := mut 0; n := mut 0; while *i < 300 { s := struct{a := *i}; if t: struct{a: int} = s { n += 1 }; \
+                    u := struct{msg := *i, error_code := \"x\"}; if t: struct{msg: int, error_code: string} = u { n += 1 }; \
+                    w := struct{error_code := [*i], msg := (*i, 1)}; if t: struct{error_code: [int], msg: (int, int)} = w { n += 1 }; i += 1 }; *n";
+        let _ = catch(|| Code::parse(&self.interp, text).map(|c| c.exec()));
     }
 
     /// through a generated SimpleSL program
@@ -309,6 +320,21 @@ fn run_case(lib: &Lib, id: &Value, name: &str, args: &[Value], pred: &Value, is_
             }
         }
     }
+    // to_lowercase / to_uppercase beyond ASCII: the specification fixes the ASCII part and the type; the Unicode case
+    // mapping tables (final sigma, one-to-many mappings) are the host's (str::to_lowercase / to_uppercase)
+    if (name == "std.string.to_lowercase" || name == "std.string.to_uppercase") && args.len() == 1 && k(&args[0]) == "string" {
+        let subject: String = args[0]["cps"].as_array().unwrap().iter().filter_map(|c| char::from_u32(c.as_u64().unwrap() as u32)).collect();
+        let want = if name.ends_with("lowercase") { subject.to_lowercase() } else { subject.to_uppercase() };
+        for (route, out) in [("prog", &p_out), ("host", &h_out)] {
+            if k(out) == "value" && k(&out["v"]) == "string" {
+                let got: String = out["v"]["cps"].as_array().unwrap().iter().filter_map(|c| char::from_u32(c.as_u64().unwrap() as u32)).collect();
+                if got != want {
+                    mm.push("result", json!({"id": id, "name": name, "route": route, "program": text, "args": args,
+                        "expected": format!("{want:?} (host case mapping)"), "observed": format!("{got:?}")}));
+                }
+            }
+        }
+    }
     // float_sum / float_product: the specification only gives the type (IEEE arithmetic is not expressible in TLA+);
     // the value is the left-to-right fold from 0.0 / 1.0, every step rounded on its own — host f64 as the reference
     if (name == "std.operators.float_sum" || name == "std.operators.float_product") && args.len() == 1 && args[0]["src"] == "iter" {
@@ -356,6 +382,9 @@ fn replay(cases: &str, obs_path: &str, summary: &str, scratch: &str) -> Value {
         names.insert(name.to_string());
         let args = row["args"].as_array().cloned().unwrap_or_default();
         let is_const = lib.leaf(name).map_or(false, |v| !matches!(v, Variable::Function(_))) && args.is_empty();
+        if name.starts_with("std.fs.") || name.starts_with("std.io.") || row["id"].as_u64().unwrap_or(1) % 40 == 0 {
+            lib.churn();
+        }
         let (c, e) = run_case(&lib, &row["id"], name, &args, &row["pred"], is_const, &mut obs, &mut mm, &mut samples);
         calls += c;
         exact += e;
